@@ -15,7 +15,7 @@ PROP = {
     'assumptions': [
         'prefixes are well formed (length within the family, host bits zero): guaranteed by the constructors of Ipv4Prefix/Ipv6Prefix/TypedPrefix and re-checked on every generated case (wf_case)',
         'a ResourceSet is seen through its blocks (128-bit min/max, as rpki::resources stores them) and the prefix list of get_prefixes_from_scope; the harness derives both with the same public rpki calls and Coq re-checks on every case that the prefixes tile the blocks exactly (resources_ok)',
-        'the order of report entries and of the lists inside an entry is not compared (the code sorts them); multiplicities are',
+        'the order of report entries and of the lists inside an entry is not compared (the code sorts them); multiplicities are; the report order that suggest iterates in (it decides which too-permissive ROA gets a shared replacement) is modelled by a stable sort on the Ord key of BgpAnalysisEntry (report_sort)',
         'RFC 6811 is the function rov of coq/bgp/Rov.v, written from the RFC text incl. "no Route can be Matched by a VRP whose ASN is zero"; announcements originated by AS0 are excluded from the agreement theorems and from the oracle (F17a)',
         'the harness links the dev profile (overflow checks on): arithmetic overflow in nr_of_specific_prefixes is a panic in the model (chk = true); the release behaviour (wrapping) is modelled (chk = false) and proved total but not executed',
     ],
@@ -26,8 +26,8 @@ PROP = {
 }
 
 META = {
-    'text': 'Theorems (Coq, closed under the global context) about a function-by-function model of BgpAnalyser::analyse/suggest (validate, validate_set, categorise_roa, scope/held filtering, suggestion partition) against RFC 6811 written independently as a three-valued function: for every ROA set, announcement set, held resources and scope, the mask test of covers is the RFC bit-prefix test; every loaded announcement under a scope prefix is reported exactly, with the RFC 6811 state (origin <> AS0) and the Invalid split characterised (wrong length iff a covering ROA has the origin, disallowed iff all covering ROAs are AS0, wrong origin otherwise); allowed_by is a matching ROA and disallowed_by the covering ROAs; each ROA\'s authorised and disallowed sets are exactly the announcements validation attributes to it; a ROA that validates an observed announcement is never suggested as stale/disallowing/AS0-redundant and a redundant one has a replacement; the strong reading (following the suggested updates keeps every valid announcement valid) is refuted with a witness (F17e) and proved under its strongest true restriction (explicit max lengths, no too-permissive ROA validating the announcement); no panic for sane max lengths. The path-compressed prefix tree of the announcement store (builder process/process_node with closest_ancestor no-data nodes, lookup more_specific, pre-order iteration) is modelled as an inductive tree in Trie.v and proved: the builder terminates and yields a well-formed tree holding exactly its sorted input, the lookup of a well-formed tree is exact (trie_lookup_exact), and from any loaded announcement list the tree answers exactly the specification the analyser model uses (trie_agrees_with_spec). The index-linked representation of the Rust tree (u32 indices into Vecs) is abstracted away and tied by correspondence only: every announcement entry of every run is compared with the brute-force filter. Tied to the code by a correspondence run of the real analyse/suggest (hook verif_set_announcements) whose every report and suggestion is compared inside Coq with the model and checked against brute-force RFC 6811.',
+    'text': 'Theorems (Coq, closed under the global context) about a function-by-function model of BgpAnalyser::analyse/suggest (validate, validate_set, categorise_roa, scope/held filtering, suggestion partition) against RFC 6811 written independently as a three-valued function: for every ROA set, announcement set, held resources and scope, the mask test of covers is the RFC bit-prefix test; every loaded announcement under a scope prefix is reported exactly, with the RFC 6811 state (origin <> AS0) and the Invalid split characterised (wrong length iff a covering ROA has the origin, disallowed iff all covering ROAs are AS0, wrong origin otherwise); allowed_by is a matching ROA and disallowed_by the covering ROAs; each ROA\'s authorised and disallowed sets are exactly the announcements validation attributes to it; a ROA that validates an observed announcement is never suggested as stale/disallowing/AS0-redundant and a redundant one has a replacement; the strong reading (following the suggested updates - removals first, then the replacements and the not-found/invalid announcements - keeps every valid announcement valid) is proved for the repaired suggest (/repo 992adfab) for every announcement not validated through None/Some(len) twin payloads, hence under explicit max lengths as a CA stores them; it is refuted for the pinned pre-repair code (F17e regression witness) and, without the twin hypothesis, for the repaired code (F17b); no panic for sane max lengths. The path-compressed prefix tree of the announcement store (builder process/process_node with closest_ancestor no-data nodes, lookup more_specific, pre-order iteration) is modelled as an inductive tree in Trie.v and proved: the builder terminates and yields a well-formed tree holding exactly its sorted input, the lookup of a well-formed tree is exact (trie_lookup_exact), and from any loaded announcement list the tree answers exactly the specification the analyser model uses (trie_agrees_with_spec). The index-linked representation of the Rust tree (u32 indices into Vecs) is abstracted away and tied by correspondence only: every announcement entry of every run is compared with the brute-force filter. Tied to the code by a correspondence run of the real analyse/suggest (hook verif_set_announcements) whose every report and suggestion is compared inside Coq with the model and checked against brute-force RFC 6811.',
     'design_ref': 'DESIGN.md section 5 C17',
-    'note': 'Trusted: Coq kernel + vm_compute; harness abstraction; rpki resource-set iteration. Modelled not verified: src/server/bgp/analyser.rs (analyse, suggest, categorise_roa, validate), RoutePrefix::covers and the prefix tree (CollectionBuilder, TreeIter) of src/server/bgp/riswhois.rs, entry constructors of src/api/bgp.rs, RoaPayload helpers of src/api/roa.rs. Refuted in the model and observed on the real code (candidate findings, not failing the check): F17a AS0 announcement valid by AS0 ROA; F17b None/Some(len) twins mutually redundant; F17c family-blind held/scope containment (since fixed in /repo by 2496aeb4; model follows the fixed code, witness kept as regression case); F17d ::/0-128 overflow panic in checked builds; F17e following a suggestion can drop a valid announcement.',
+    'note': 'Trusted: Coq kernel + vm_compute; harness abstraction; rpki resource-set iteration. Modelled not verified: src/server/bgp/analyser.rs (analyse, suggest, categorise_roa, validate), RoutePrefix::covers and the prefix tree (CollectionBuilder, TreeIter) of src/server/bgp/riswhois.rs, entry constructors of src/api/bgp.rs, RoaPayload helpers of src/api/roa.rs. Refuted in the model and observed on the real code (candidate findings, not failing the check): F17a AS0 announcement valid by AS0 ROA; F17b None/Some(len) twins mutually redundant; F17c family-blind held/scope containment (since fixed in /repo by 2496aeb4; model follows the fixed code, witness kept as regression case); F17d ::/0-128 overflow panic in checked builds; F17e following a suggestion could drop a valid announcement (repaired in /repo by 992adfab; model follows the repair, old code pinned as suggest_pinned, oracle ok_suggest_preserves reports a regression with a failing input).',
     'technique': 'Coq proof over analyser model vs independent RFC 6811 function + correspondence and brute-force oracle evaluated in Coq',
 }
